@@ -493,6 +493,9 @@ func TestCheck(t *testing.T) {
 				if res.Panic != nil {
 					rep.HarnessError("R1 panic: %v\n%s", res.Panic, res.Stack)
 				}
+				if res.Hang != "" {
+					rep.Violate(map[string]any{"kind": "hang"}, map[string]any{"hang": res.Hang}, "the exchange never completed: %s", res.Hang)
+				}
 			})
 		}
 	}
@@ -536,6 +539,9 @@ func TestCheck(t *testing.T) {
 					})
 					if res.Panic != nil {
 						rep.HarnessError("R2 panic: %v\n%s", res.Panic, res.Stack)
+					}
+					if res.Hang != "" {
+						rep.Violate(map[string]any{"kind": "hang"}, map[string]any{"hang": res.Hang}, "the exchange never completed: %s", res.Hang)
 					}
 				})
 			}
@@ -592,6 +598,9 @@ func TestCheck(t *testing.T) {
 					})
 					if res.Panic != nil {
 						rep.HarnessError("S panic: %v\n%s", res.Panic, res.Stack)
+					}
+					if res.Hang != "" {
+						rep.Violate(map[string]any{"kind": "hang"}, map[string]any{"hang": res.Hang}, "the exchange never completed: %s", res.Hang)
 					}
 				})
 			}
@@ -740,6 +749,9 @@ func concurrent(t *testing.T, rep *ev.Report, n int, order []int, rel int) {
 	})
 	if res.Panic != nil {
 		rep.HarnessError("%s: panic: %v\n%s", desc, res.Panic, res.Stack)
+	}
+	if res.Hang != "" {
+		rep.Violate(map[string]any{"kind": "hang"}, map[string]any{"hang": res.Hang}, "the exchange never completed: %s", res.Hang)
 	}
 }
 
